@@ -240,6 +240,7 @@ class Ref:
         self.prog = prog
         self.fns = prog["fns"]
         self.preds = None  # set to a list to record (path, idx, bool) of every Cond predicate evaluated
+        self.empties = None  # set to a list to record the addresses of choice-free sub-calls
 
     def run(self, fname, args, kwargs, site, path=(), idx=()):
         fn = self.fns[fname]
@@ -257,6 +258,8 @@ class Ref:
             elif kind == "call":
                 a = [ev(e, env, np) for e in st[3]]
                 kw = {k: ev(e, env, np) for k, e in st[4].items()}
+                if not self.fns[st[2]]["body"] and self.empties is not None and path + (addr,) not in self.empties:
+                    self.empties.append(path + (addr,))  # a sub-call without random choices: an empty map at its address
                 env["v"][addr] = self.run(st[2], a, kw, site, path + (addr,), idx)
             elif kind == "vmap":
                 _, _, f, axes, n, aex = st
@@ -343,8 +346,17 @@ class Ref:
             st.put(path, idx, v, dist)
             return np.asarray(v)
 
-        ret = self.run(self.prog["main"], args, kwargs, site)
-        return st.to_choices(), ret
+        self.empties = []
+        try:
+            ret = self.run(self.prog["main"], args, kwargs, site)
+            ch = st.to_choices()
+            for pth in self.empties:
+                x = ch
+                for a in pth:
+                    x = x.setdefault(a, {})
+        finally:
+            self.empties = None
+        return ch, ret
 
     def enumerate(self, args, kwargs, limit=4096, given=None):
         """All complete choice maps of an all-discrete program: list of (choices, logp, retval, key).
@@ -371,8 +383,16 @@ class Ref:
                 st.put(path, idx, v, dist)
                 return np.asarray(v)
 
-            ret = self.run(self.prog["main"], args, kwargs, site)
+            self.empties = []
+            try:
+                ret = self.run(self.prog["main"], args, kwargs, site)
+            finally:
+                emp, self.empties = self.empties, None
             ch = st.to_choices()
+            for pth in emp:
+                x = ch
+                for a in pth:
+                    x = x.setdefault(a, {})
             results.append((ch, acc["lp"], ret, outcome_key(ch)))
             if len(results) + len(stack) > limit:
                 return None
